@@ -107,8 +107,36 @@ def _owned_followup(w, viol, owners):
     return viol
 
 
-def run_seed(seed, profile, tier, known, scratch, owners=None):
-    """generate-and-execute one run.  Returns a result dict."""
+OP_ORACLE = {
+    'filter': 'filter.result', 'remove_empty': 'remove_empty.result',
+    'head': 'head.result', 'sort': 'reorder.result',
+    'sort_order': 'reorder.result', 'transpose': 'reorder.result',
+    'align_to': 'reorder.result', 'copy': 'copy.result',
+    'update_ids': 'rename.result', 'add_metadata': 'metadata.add',
+    'del_metadata': 'metadata.del', 'transform': 'transform.result',
+    'norm': 'norm.result', 'pa': 'pa.result', 'rankdata': 'rank.result',
+    'subsample': 'subsample.result', 'collapse': 'collapse.result',
+    'partition': 'partition.parts', 'merge': 'merge.result',
+    'concat': 'concat.result'}
+
+
+def crash_oracle(ev):
+    """oracle name for 'the process died inside this event' (segfault in a
+    compiled kernel or in libhdf5): owned like the event's result oracle"""
+    k = ev.get('k')
+    name = ev.get('name', '')
+    if k == 'op':
+        return OP_ORACLE.get(name, name) + '.crashed'
+    if k == 'probe':
+        return name.split('_')[0] + '.crashed'
+    if k in ('spawn', 'step'):
+        return 'reader.crashed'
+    return '%s.%s.crashed' % (k, name)
+
+
+def run_seed(seed, profile, tier, known, scratch, owners=None, wal=None):
+    """generate-and-execute one run.  Returns a result dict.  With `wal`
+    (an open file) every event is logged durably before it is executed."""
     from .world import World, Violation, reset_process_state
     from .gen import Gen, draw_cfg
     rng = random.Random('%d:gen' % seed)
@@ -125,6 +153,10 @@ def run_seed(seed, profile, tier, known, scratch, owners=None):
         for step in range(cfg['len']):
             ev = gen.next(w)
             events.append(ev)
+            if wal is not None:
+                wal.write(json.dumps(ev) + '\n')
+                wal.flush()
+                os.fsync(wal.fileno())
             try:
                 w.execute(ev)
             except Violation as v:
@@ -405,3 +437,77 @@ def sweep_worker(args):
         shutil.rmtree(scratch, ignore_errors=True)
     agg['oracle_cases'] = sorted(agg['oracle_cases'])
     return agg
+
+
+def isolated_seed(prop, tier, seed, walpath):
+    """entry point of a fresh interpreter running one seed with a write-ahead
+    event log; writes <walpath>.result on normal completion"""
+    from .profiles import PROFILES, OWNERS
+    from . import ops2, probes  # noqa
+    known = load_known()
+    scratch = tempfile.mkdtemp(prefix='verif-iso-')
+    os.chdir(scratch)
+    try:
+        with open(walpath, 'w') as wal:
+            res = run_seed(seed, PROFILES[prop], tier, known, scratch,
+                           OWNERS[prop], wal=wal)
+        with open(walpath + '.result', 'w') as f:
+            json.dump({'viol': res['viol'], 'cfg': {k: v for k, v in
+                                                    res['cfg'].items()
+                                                    if k != 'scratch'}}, f)
+    finally:
+        os.chdir('/')
+        shutil.rmtree(scratch, ignore_errors=True)
+    return 0
+
+
+def isolate_crash(prop, tier, seeds, owners, max_found=2):
+    """a worker process died: re-run the given seeds one per fresh
+    interpreter (16 at a time) to find the run and event that kills the
+    process.  Returns violation records (with replay files)."""
+    import subprocess
+    from concurrent.futures import ThreadPoolExecutor
+    from .profiles import PROFILES
+    from .gen import draw_cfg
+    found = []
+    tmp = tempfile.mkdtemp(prefix='verif-wal-')
+
+    def one(seed):
+        if len(found) >= max_found:
+            return
+        wal = os.path.join(tmp, '%d.wal' % seed)
+        env = dict(os.environ)
+        r = subprocess.run([sys.executable, os.path.join(VERIF, 'bin',
+                                                         'check.py'), prop,
+                            '--tier', tier, '--isolated', str(seed),
+                            '--wal', wal], env=env, capture_output=True,
+                           text=True, timeout=600)
+        if os.path.exists(wal + '.result'):
+            os.unlink(wal)
+            os.unlink(wal + '.result')
+            return
+        if not os.path.exists(wal):
+            return
+        events = [json.loads(ln) for ln in open(wal) if ln.strip()]
+        os.unlink(wal)
+        if not events:
+            return
+        oracle = crash_oracle(events[-1])
+        cfg = draw_cfg(random.Random('%d:gen' % seed), PROFILES[prop], tier)
+        viol = {'oracle': oracle, 'event': len(events) - 1, 'finding': None,
+                'detail': 'the interpreter died (exit status %r) while '
+                          'executing this event; stderr tail: %s'
+                          % (r.returncode, (r.stderr or '')[-300:])}
+        if not owns(owners, oracle):
+            return
+        path = write_replay(prop, seed, events, cfg, viol, 'process-died',
+                            len(events))
+        found.append({'seed': seed, 'oracle': oracle,
+                      'detail': viol['detail'][:500], 'replay': path,
+                      'events': len(events)})
+    try:
+        with ThreadPoolExecutor(max_workers=16) as ex:
+            list(ex.map(one, seeds))
+    finally:
+        shutil.rmtree(tmp, ignore_errors=True)
+    return found
